@@ -270,8 +270,22 @@ def fit_cases(ai, out):
                 "driver": "fit", "size": 1,
                 "title": "MethodCall f(%s)void accepted an argument of type %s (different ARC-4 layout)" % (b, a),
                 "case": {"fit_a": str(a), "fit_b": str(b)}, "features": {"why": "ill-typed accepted"}})
+    # declared types that exist only as ARC-4 signature text (uint24, ufixed64x2, ...)
+    for e in c19.EXOTIC:
+        r = c19.method_call_accepts(a, e)
+        if r is None:
+            continue
+        cnt["traces_validated"] = cnt.get("traces_validated", 0) + 1
+        same = c19.norm(a) == c19.norm_sdk(c19.sdkabi.ABIType.from_string(e))
+        key = "fit:%s/%s" % ("same" if same else "different", "accepted" if r else "rejected")
+        oc[key] = oc.get(key, 0) + 1
+        if r and not same:
+            out["violations"].append({
+                "driver": "fit", "size": 1,
+                "title": "MethodCall f(%s)void accepted an argument of type %s (different ARC-4 layout)" % (e, a),
+                "case": {"fit_a": str(a), "fit_b": e}, "features": {"why": "ill-typed accepted"}})
     cnt["states"] = cnt.get("states", 0) + 1
-    cnt["transitions"] = cnt.get("transitions", 0) + len(U)
+    cnt["transitions"] = cnt.get("transitions", 0) + len(U) + len(c19.EXOTIC)
 
 
 def _worker(items, base):
